@@ -1225,6 +1225,7 @@ class Key(object):
         self._address_obj = None
         self._wif = None
         self._wif_prefix = None
+        self._wif_compressed = None
 
     def __repr__(self):
         return "<Key(public_hex=%s, network=%s)>" % (self.public_hex, self.network.name)
@@ -1476,6 +1477,9 @@ class Key(object):
 
         :return str: Base58Check encoded Private Key WIF
         """
+        if self._wif_compressed != self.compressed:
+            # address(compressed=...) changes the compressed attribute: a WIF stored with the other flag is not reused
+            self._wif = None
         if not self.secret:
             raise BKeyError("WIF format not supported for public key")
         if prefix is None:
@@ -1495,6 +1499,7 @@ class Key(object):
         key += double_sha256(key)[:4]
         self._wif = base58encode(key)
         self._wif_prefix = versionbyte
+        self._wif_compressed = self.compressed
         return self._wif
 
     def public(self):
